@@ -28,8 +28,8 @@ FUNCTIONS = [
     "distributions.ScipyDistribution.cdf",
 ]
 BOUNDS = {
-    "quick": "9 families x {cdf,icdf,pdf} x every subset of explicitly passed parameters (keyword) x argument kind "
-             "scalar/array(2); all parameter values and evaluation points symbolic reals in admissible ranges",
+    "quick": "9 families x {cdf,icdf,pdf} x every subset of explicitly passed parameters (keyword and positional) x argument "
+             "kind scalar/array(2); all parameter values and evaluation points symbolic reals in admissible ranges",
     "thorough": "as quick plus positional passing, Python-list arguments, arrays of length 3, and two instances "
                 "evaluated alternately",
 }
@@ -138,7 +138,7 @@ def h_normfit_moments(h):
 
 def obligations(tier):
     kinds = ["scalar", "array"] if tier == "quick" else ["scalar", "array", "array3", "list"]
-    passings = ["kw"] if tier == "quick" else ["kw", "pos"]
+    passings = ["kw", "pos"]
     for fname, fam in FAMILIES.items():
         for method in METHODS:
             for S in subsets(fam.params):
